@@ -4,14 +4,14 @@
 // goroutines, no timers, no RNG. See NOTES.md of C18 ("How to construct a
 // Service") for the way the pieces fit together.
 //
-//   vTree          rooted block tree (parent[] array) with real types.Header values
-//   vBlockState    grandpa.BlockState over a vTree: ancestry, finalised head, recorded SetFinalisedHash calls
-//   vGrandpaState  grandpa.GrandpaState: set id, authorities, stored justifications, one optional pending change
-//   vNetwork       grandpa.Network that records gossiped / sent messages
-//   vTelemetry     no-op
-//   vKey(i)        deterministic ed25519 key pair number i (cached)
-//   vSignVote      signature over the FullVote payload, encoded by hand (independent of pkg/scale)
-//   vNewService    NewService(...) over the fakes, silent logger
+//	vTree          rooted block tree (parent[] array) with real types.Header values
+//	vBlockState    grandpa.BlockState over a vTree: ancestry, finalised head, recorded SetFinalisedHash calls
+//	vGrandpaState  grandpa.GrandpaState: set id, authorities, stored justifications, one optional pending change
+//	vNetwork       grandpa.Network that records gossiped / sent messages
+//	vTelemetry     no-op
+//	vKey(i)        deterministic ed25519 key pair number i (cached)
+//	vSignVote      signature over the FullVote payload, encoded by hand (independent of pkg/scale)
+//	vNewService    NewService(...) over the fakes, silent logger
 package grandpa
 
 import (
